@@ -31,16 +31,28 @@ def mk(spec):
     raise ValueError(spec)
 
 
-def view(node, _depth=0):
-    """JSON-able structural view of a node tree (tags and values)."""
-    if _depth > 200:
-        return ['deep']
+def view(node, _seen=None):
+    """JSON-able structural view of a node graph (tags and values).
+
+    Linear in the size of the graph: a collection node met a second time
+    (alias, cycle) is written as ['shared', n], n being the order of first
+    visit."""
     if isinstance(node, yaml.ScalarNode):
         return ['s', node.tag, node.value]
+    if _seen is None:
+        _seen = {}
+    if id(node) in _seen:
+        return ['shared', _seen[id(node)]]
     if isinstance(node, yaml.SequenceNode):
-        return ['seq', [view(x, _depth + 1) for x in node.value], node.tag]
+        _seen[id(node)] = len(_seen)
+        if len(_seen) > 5000:
+            return ['big']
+        return ['seq', [view(x, _seen) for x in node.value], node.tag]
     if isinstance(node, yaml.MappingNode):
-        return ['map', [[view(k, _depth + 1), view(v, _depth + 1)]
+        _seen[id(node)] = len(_seen)
+        if len(_seen) > 5000:
+            return ['big']
+        return ['map', [[view(k, _seen), view(v, _seen)]
                         for k, v in node.value], node.tag]
     return ['?', repr(type(node))]
 
